@@ -273,14 +273,24 @@ def _canon_value(v, depth=0):
     if isinstance(v, etree._Element):
         return ('X', etree.tostring(v, method='c14n', exclusive=True))
     if hasattr(v, 'sorted_container_properties') and depth < 12:
-        return tuple((n, _canon_value(getattr(v, n), depth + 1)) for n, _ in v.sorted_container_properties())
-    if hasattr(v, '_props') and depth < 12:
-        return tuple((n, _canon_value(getattr(v, n), depth + 1)) for n in v._props)
+        return tuple((n, _canon_value(getattr(v, n), depth + 1)) for n in _prop_names(v))
     return ('R', repr(v))
 
 
+_NAMES: dict = {}
+
+
+def _prop_names(obj):
+    """names of the declared properties of a container / PropertyBasedPMType, cached per class (the walk over the MRO is slow)."""
+    cls = type(obj)
+    names = _NAMES.get(cls)
+    if names is None:
+        names = _NAMES[cls] = tuple(n for n, _ in obj.sorted_container_properties())
+    return names
+
+
 def canon_container(c):
-    items = [(n, _canon_value(getattr(c, n))) for n, _ in c.sorted_container_properties()]
+    items = [(n, _canon_value(getattr(c, n))) for n in _prop_names(c)]
     extra = [('cls', type(c).__name__)]
     for n in ('parent_handle', 'source_mds', 'DescriptorHandle', 'Handle'):
         if hasattr(c, n):
